@@ -559,7 +559,8 @@ fn gen_exhaustive(emit: &mut dyn FnMut(Value)) {
     let paths: [&[&str]; 7] = [&["a"], &["b"], &["a", "b"], &["b", "a"], &["a", "b", "c"], &["br"], &["a", "br"]];
     let sels: [Option<&str>; 3] = [None, Some("c"), Some("*")];
     let mut idx = 0usize;
-    for n in 1..=5 {
+    let max_nodes: usize = std::env::var("C15_EXH_NODES").ok().and_then(|v| v.parse().ok()).unwrap_or(5);
+    for n in 1..=max_nodes {
         for doc in forests(n, &mut memo) {
             idx += 1;
             let mut doc = doc;
